@@ -84,3 +84,96 @@ def stv_ctor(rule, m, q, sim, tb):
     if rule == "IRV":
         return "IRV", dict(quota=q, tiebreak=tb), "fractional"
     raise ValueError(rule)
+
+
+def weak_profiles(tier):
+    c3 = fam.cands(3)
+    W3 = fam.weak_family(3)
+    if tier == "quick":
+        return fam.prof_list(W3, 2, (1, 2), c3)
+    return fam.prof_list(W3, 2, (1, 2, 3), c3) + fam.prof_list(fam.weak_family(2), 3, (1, 2), fam.cands(2))
+
+
+def zero_ballot_cases():
+    return [(fam.cands(n), ()) for n in (1, 2, 3)]
+
+
+def score_types(n, values):
+    cs = fam.cands(n)
+    out = []
+    for vals in itertools.product(values, repeat=n):
+        d = tuple((c, v) for c, v in zip(cs, vals) if v != 0)
+        if d:
+            out.append(d)
+    return out
+
+
+def score_profiles(tier):
+    """Score-ballot profile cases: (candidates, ((scores tuple, weight), ...))."""
+    out = []
+    if tier == "quick":
+        vals = (0, 1, 2)
+        for n, K in ((2, 2), (3, 2)):
+            ts = score_types(n, vals)
+            out += fam.prof_list(ts, K, (1, 2), fam.cands(n))
+        ts = score_types(3, (0, H, 1))
+        out += fam.prof_list(ts, 1, (1, H), fam.cands(3))
+    else:
+        vals = (0, H, 1, 2)
+        ts = score_types(2, vals)
+        out += fam.prof_list(ts, 3, (1, 2), fam.cands(2))
+        ts = score_types(3, (0, 1, 2))
+        out += fam.prof_list(ts, 2, (1, 2, H), fam.cands(3))
+        ts = score_types(3, (0, H, 1))
+        out += fam.prof_list(ts, 2, (1, 2), fam.cands(3))
+    return out
+
+
+def score_totals(case):
+    cs, bl = case
+    tot = {c: Fraction(0) for c in cs}
+    for sc, w in bl:
+        for c, v in sc:
+            tot[c] += Fraction(v) * Fraction(w)
+    return tot
+
+
+def score_rule_configs(n):
+    """(rule, kwargs) for the five score-rule classes."""
+    for m in range(1, n + 1):
+        for tb in (None, "random"):
+            for L in (1, 2):
+                yield "Rating", dict(m=m, L=L, tiebreak=tb)
+            yield "Approval", dict(m=m, tiebreak=tb)
+            for k in range(1, m + 1):
+                yield "Limited", dict(m=m, k=k, tiebreak=tb)
+            yield "Cumulative", dict(m=m, tiebreak=tb)
+            for k in (None, 1, 2):
+                yield "BlocPlurality", dict(m=m, k=k, tiebreak=tb)
+
+
+def score_ballot_valid(sc, L, k):
+    vals = [Fraction(v) for _, v in sc if v != 0]
+    if not vals:
+        return False
+    if any(v < 0 for v in vals) or any(v > L for v in vals):
+        return False
+    if k is not None and sum(vals) > k:
+        return False
+    return True
+
+
+def score_rule_limits(rule, kw):
+    """(L, k) enforced by the rule class for these kwargs."""
+    m = kw.get("m", 1)
+    if rule == "Rating":
+        return kw.get("L", 1), None
+    if rule == "Approval":
+        return 1, None
+    if rule == "Limited":
+        return kw.get("k", 1), kw.get("k", 1)
+    if rule == "Cumulative":
+        return m, m
+    if rule == "BlocPlurality":
+        return 1, (kw.get("k") or m)
+    raise ValueError(rule)
